@@ -245,6 +245,18 @@ def run(ctx):
     inst = R.canonical_instance()
     django_env.load_relational(inst)
     sqla_env.load_relational(inst)
+    # in-lists of many lengths (a backend may switch strategy above some size)
+    lengths = ctx.pick([1, 2, 7, 64, 101, 150, 260], [1, 2, 3, 7, 33, 64, 100, 101, 128, 150, 257, 500, 1000])
+    for j, n_items in enumerate(lengths):
+        if not ctx.mine(j):
+            continue
+        for col, kind in (("a", "int"), ("s", "str"), ("g", "guid"), ("dd", "date")):
+            lst = ("list", tuple(T.lit(kind, scalar.LITS[kind][0] if kind != "str" else "x")
+                                 for _ in range(n_items)))
+            t = ("bool", "or", ("cmp", "in", T.ident(col), lst), ("cmp", "eq", T.ident("b"), T.I(1)))
+            for b in BACKENDS:
+                judge(ctx, t, "T", b, "in-list-%d" % n_items)
+            ctx.cls("in-list-length:%d" % n_items)
     n = ctx.pick(260, 5000)
     for i in range(n):
         if ctx.out_of_time():
